@@ -149,7 +149,7 @@ def run(ctx):
         elif N[r] is None:
             ctx.unk("C20.1", f"{QI}.get_num_cells({r})", wn, "value not determined")
     known = [r for r in range(0, MAX + 1) if N[r] is not None]
-    ctx.floor("get_num_cells values determined", len(known), 25)
+    ctx.floor("get_num_cells values determined", len(known), 25, soft=True)
     for r in known:
         if r + 1 in N and N[r + 1] is not None and r + 1 <= MAX:
             if N[r + 1] > N[r] > 0:
